@@ -26,6 +26,16 @@ impl Default for SerializeMode {
     }
 }
 
+thread_local! {
+    /// The mode of the serialisation that is running on this thread. A serialisation runs on one
+    /// thread from beginning to end, so this is how the mode reaches the `Serialize` implementations
+    /// of the stand-off capable types. It used to be a cell shared by all clones of a `Config`
+    /// (the `serialize_mode` field, which is only kept for the CBOR format): a thread serialising
+    /// a resource or dataset on its own then switched the mode under every other thread that
+    /// was serialising something of the same store at that moment.
+    static SERIALIZE_MODE: std::cell::Cell<SerializeMode> = std::cell::Cell::new(SerializeMode::AllowInclude);
+}
+
 pub trait Configurable: Sized {
     //// Obtain the configuration
     fn config(&self) -> &Config;
@@ -318,23 +328,18 @@ impl Config {
     }
 
     /// Sets the mode for (de)serialization. This is a low-level method that you won't need directly.
+    /// The mode belongs to the serialisation that is running on the current thread (see [`SERIALIZE_MODE`]).
     pub(crate) fn set_serialize_mode(&self, mode: SerializeMode) {
         #[cfg(stam_verif)]
         crate::verif::yield_point(crate::verif::SITE_SET_MODE);
-        if let Ok(mut serialize_mode) = self.serialize_mode.write() {
-            *serialize_mode = mode;
-        }
+        SERIALIZE_MODE.with(|serialize_mode| serialize_mode.set(mode));
     }
 
     /// Gets the mode for (de)serialization. This is a low-level method that you won't need directly.
     pub(crate) fn serialize_mode(&self) -> SerializeMode {
         #[cfg(stam_verif)]
         crate::verif::yield_point(crate::verif::SITE_GET_MODE);
-        if let Ok(serialize_mode) = self.serialize_mode.read() {
-            *serialize_mode
-        } else {
-            panic!("Unable to get lock for serialize mode");
-        }
+        SERIALIZE_MODE.with(|serialize_mode| serialize_mode.get())
     }
 
     ///  Return the working directory, if set
